@@ -6,11 +6,14 @@ package crypto
 // not come from gossamer or from the libraries it calls: python hashlib digests
 // (refvectors_gen.go), published test vectors, RFC 8032 §7.1, and two
 // implementations gossamer does not use for these functions (cespare/xxhash,
-// decred secp256k1). A failure makes the whole check INCONCLUSIVE: a wrong
-// oracle must never raise an alarm.
+// decred secp256k1). One exception, at the end of this file: the MODEL of the
+// known deviation C29-K1 (refVerifyRFC8032) is validated against crypto/ed25519,
+// the library that defines that deviation. A failure makes the whole check
+// INCONCLUSIVE: a wrong oracle must never raise an alarm.
 
 import (
 	"bytes"
+	stded "crypto/ed25519"
 	"encoding/hex"
 	"fmt"
 	"math/big"
@@ -156,6 +159,10 @@ func SelfTest() string {
 	if nenc != 14 { // "8 canonical + 6 non-canonical" encodings of small-order points (ZIP-215, Chalkias et al.)
 		return fmt.Sprintf("small-order encodings: %d, want 14", nenc)
 	}
+	// --- the RFC 8032 deviation model (known finding C29-K1) against Go's crypto/ed25519
+	if bad := SelfTestEdModel(vcommon.NewRand(0xC29E), edModelSelfTestPerProcess); bad != "" {
+		return bad
+	}
 	// --- secp256k1 against go-ethereum's published vector and decred's implementation
 	kmsg := unhex("ce0677bb30baa8cf067c88db9811f4333d131bf8bcf12fe7065d211dce971008")
 	ksig := unhex("90f27b8b488db00b00606796d2987f6a5f59ae62ea05effe84fef5b8b0e549984a691139ad57a3f0b906637673aa2f63d1f55cb1a69199d4009eea23ceaddc9301")
@@ -220,6 +227,233 @@ func SelfTest() string {
 					return "SkRecover does not return the signer"
 				}
 			}
+		}
+	}
+	return ""
+}
+
+// ---------------------------------------------------------------------------
+// Validation of the RFC 8032 deviation model (refVerifyRFC8032, known finding
+// C29-K1) against Go's crypto/ed25519. crypto/ed25519 is the library gossamer
+// calls today, so it is NOT used as an oracle for gossamer; it is what the known
+// deviation is defined by ("gossamer verifies with RFC 8032 / Go semantics"), so
+// it is the legitimate yardstick for the MODEL of that deviation. Attribution in
+// checkEd is always made with the hand-written model.
+
+// edModelSelfTestPerProcess edge cases are checked in every process before
+// anything runs; the sharded group "ed-model" adds >= 10 000 more per run.
+const edModelSelfTestPerProcess = 600
+
+// GoStdVerify is crypto/ed25519.Verify (panics on a wrong key length: guarded).
+func GoStdVerify(pub, msg, sig []byte) bool {
+	if len(pub) != stded.PublicKeySize {
+		return false
+	}
+	return stded.Verify(stded.PublicKey(pub), msg, sig)
+}
+
+var (
+	edSmallEncs    [][]byte   // the 14 encodings of the 8 small-order points
+	edSmallEncsPts []*EdPoint // the point each of them decodes to
+	edTorsionPts   []*EdPoint
+)
+
+func edSmallOrderEncodings() ([][]byte, []*EdPoint, []*EdPoint) {
+	if edSmallEncs == nil {
+		edTorsionPts = EdTorsion()
+		for _, t := range edTorsionPts {
+			for _, e := range EdEncodings(t) {
+				edSmallEncs = append(edSmallEncs, e)
+				edSmallEncsPts = append(edSmallEncsPts, t)
+			}
+		}
+	}
+	return edSmallEncs, edSmallEncsPts, edTorsionPts
+}
+
+// edNearP returns a 32-byte string with y around p / tiny y and a random sign bit.
+func edNearP(r *vcommon.Rand) []byte {
+	var y *big.Int
+	if r.Bool() {
+		y = new(big.Int).Add(edP, big.NewInt(int64(r.Range(-20, 18))))
+	} else {
+		y = big.NewInt(int64(r.Range(0, 40)))
+	}
+	b := leBytes(y, 32)
+	if r.Bool() {
+		b[31] |= 0x80
+	}
+	return b
+}
+
+// EdModelCase generates one edge case (A, msg, sig) for the comparison of the
+// RFC 8032 model with crypto/ed25519: the small-order / non-canonical matrix as
+// A and as R, S = 0, S = r, mixed-order A and R built so that the cofactorless
+// equation holds for some challenge residues only, honest and tampered
+// signatures, S >= L, arbitrary and near-p strings as A or R.
+func EdModelCase(r *vcommon.Rand) (kind string, pub, msg, sig []byte) {
+	encs, _, tor := edSmallOrderEncodings()
+	msg = r.Bytes(r.Range(0, 40))
+	cat := func(a, b []byte) []byte { return append(append([]byte{}, a...), b...) }
+	switch r.Intn(12) {
+	case 0, 1, 2: // small-order A x small-order R (all 14 x 14 encodings), S = 0
+		return "small_A_small_R_S0", vcommon.Pick(r, encs), msg, cat(vcommon.Pick(r, encs), make([]byte, 32))
+	case 3: // small-order A, R = rB (+ torsion, any encoding), S = r
+		rr := randScalarSelf(r)
+		rPt := edB.Mul(rr)
+		if r.Bool() {
+			rPt = rPt.Add(tor[r.Intn(8)])
+		}
+		return "small_A_S_r", vcommon.Pick(r, encs), msg, cat(vcommon.Pick(r, EdEncodings(rPt)), leBytes(rr, 32))
+	case 4, 5: // mixed-order A = aB + T_i, R = rB + T_j, S = r + k a: cofactorless iff T_j + [k]T_i = 0
+		a, rr := randScalarSelf(r), randScalarSelf(r)
+		aEnc := edB.Mul(a).Add(tor[r.Intn(8)]).Encode()
+		rEnc := edB.Mul(rr).Add(tor[r.Intn(8)]).Encode()
+		k := edHash(rEnc, aEnc, msg)
+		S := new(big.Int).Mul(k, a)
+		S.Add(S, rr).Mod(S, edL)
+		return "mixed_order", aEnc, msg, cat(rEnc, leBytes(S, 32))
+	case 6: // honest
+		p, s := EdSign(r.Bytes(32), msg)
+		return "honest", p, msg, s
+	case 7: // honest, one bit flipped in key, message or signature
+		p, s := EdSign(r.Bytes(32), msg)
+		switch t := r.Intn(3); {
+		case t == 0 && len(msg) > 0:
+			msg[r.Intn(len(msg))] ^= 1 << uint(r.Intn(8))
+		case t == 1:
+			p[r.Intn(32)] ^= 1 << uint(r.Intn(8))
+		default:
+			s[r.Intn(64)] ^= 1 << uint(r.Intn(8))
+		}
+		return "tampered", p, msg, s
+	case 8: // scalar edge: S + L, S with the top bits set, S = L, S = L - 1, random S
+		p, s := EdSign(r.Bytes(32), msg)
+		S := leInt(s[32:])
+		switch r.Intn(5) {
+		case 0:
+			S.Add(S, edL)
+		case 1:
+			S.SetBit(S, 253+r.Intn(3), 1)
+		case 2:
+			S.Set(edL)
+		case 3:
+			S.Sub(edL, big1)
+		case 4:
+			S = leInt(r.Bytes(32))
+		}
+		copy(s[32:], leBytes(S, 32))
+		if r.Chance(1, 3) { // ... with a small-order key and commitment, where S = 0 would verify
+			return "scalar_small", vcommon.Pick(r, encs), msg, cat(vcommon.Pick(r, encs), s[32:])
+		}
+		return "scalar", p, msg, s
+	case 9: // arbitrary / near-p string as A
+		_, s := EdSign(r.Bytes(32), msg)
+		p := edNearP(r)
+		if r.Bool() {
+			p = r.Bytes(32)
+		}
+		if r.Bool() {
+			copy(s[32:], make([]byte, 32))
+			copy(s[:32], vcommon.Pick(r, encs))
+		}
+		return "arbitrary_A", p, msg, s
+	case 10: // arbitrary / near-p string as R
+		p, s := EdSign(r.Bytes(32), msg)
+		copy(s[:32], edNearP(r))
+		if r.Bool() {
+			p = vcommon.Pick(r, encs)
+			copy(s[32:], make([]byte, 32))
+		}
+		return "arbitrary_R", p, msg, s
+	}
+	// small-order A, R = -[m]A in every encoding, S = 0: accepted iff R canonical and k = m (mod ord A)
+	i := r.Intn(len(encs))
+	_, pts, _ := edSmallOrderEncodings()
+	rPt := pts[i].Mul(big.NewInt(int64(r.Intn(8)))).Neg()
+	return "small_A_R_in_span", encs[i], msg, cat(vcommon.Pick(r, EdEncodings(rPt)), make([]byte, 32))
+}
+
+func randScalarSelf(r *vcommon.Rand) *big.Int {
+	v := leInt(r.Bytes(40))
+	return v.Mod(v, edL)
+}
+
+// EdModelStats counts what a run of the model validation saw.
+type EdModelStats struct {
+	Cases, GoAccept, GoReject     int
+	AcceptNonCanonY, AcceptZeroXS int // accepted with A non-canonical by y >= p / by x = 0 with sign
+	RefutedAlt                    [3]int
+	Kinds                         map[string]int
+}
+
+var edAltRules = [3]EdDecodeRules{{false, false}, {true, false}, {false, true}}
+
+// EdModelCompare runs n generated edge cases through crypto/ed25519 and the
+// RFC 8032 model; "" when they agree on every one.
+func EdModelCompare(r *vcommon.Rand, n int, st *EdModelStats) string {
+	if st.Kinds == nil {
+		st.Kinds = map[string]int{}
+	}
+	for i := 0; i < n; i++ {
+		kind, pub, msg, sig := EdModelCase(r)
+		std := GoStdVerify(pub, msg, sig)
+		mod := refVerifyRFC8032(pub, msg, sig)
+		st.Cases++
+		st.Kinds[kind]++
+		if std != mod.Accept {
+			return fmt.Sprintf("RFC 8032 model = %v (%s) but crypto/ed25519 = %v on kind %s pub %x msg %x sig %x", mod.Accept, mod.Reason, std, kind, pub, msg, sig)
+		}
+		if zip := EdVerifyZIP215(pub, msg, sig); mod.Accept && !zip.Accept {
+			return fmt.Sprintf("RFC 8032 model accepts what the ZIP-215 reference rejects (%s): pub %x msg %x sig %x", zip.Reason, pub, msg, sig)
+		}
+		if !std {
+			st.GoReject++
+			continue
+		}
+		st.GoAccept++
+		// an accepted case with a non-canonical A refutes the decoding rules that would have rejected A
+		for j, alt := range edAltRules {
+			if !refVerifyRFC8032With(pub, msg, sig, alt).Accept {
+				st.RefutedAlt[j]++
+			}
+		}
+		if _, ok := edDecodeWith(pub, EdDecodeRules{false, true}); !ok {
+			st.AcceptNonCanonY++
+		}
+		if _, ok := edDecodeWith(pub, EdDecodeRules{true, false}); !ok {
+			st.AcceptZeroXS++
+		}
+	}
+	return ""
+}
+
+// SelfTestEdModel validates the model on n edge cases and demands that the
+// comparison had discriminating power: both verdicts frequent, and each of the
+// three alternative decodings of A refuted by crypto/ed25519 at least once.
+func SelfTestEdModel(r *vcommon.Rand, n int) string {
+	// fixed part: the whole 14 x 14 matrix with S = 0 on three messages
+	encs, _, _ := edSmallOrderEncodings()
+	for _, m := range []string{"Zcash", "", "C29"} {
+		for _, a := range encs {
+			for _, rr := range encs {
+				sig := append(append([]byte{}, rr...), make([]byte, 32)...)
+				if std, mod := GoStdVerify(a, []byte(m), sig), refVerifyRFC8032(a, []byte(m), sig); std != mod.Accept {
+					return fmt.Sprintf("RFC 8032 model = %v but crypto/ed25519 = %v on small-order matrix A %x R %x msg %q", mod.Accept, std, a, rr, m)
+				}
+			}
+		}
+	}
+	var st EdModelStats
+	if bad := EdModelCompare(r, n, &st); bad != "" {
+		return bad
+	}
+	if st.GoAccept < n/20 || st.GoReject < n/4 {
+		return fmt.Sprintf("RFC 8032 model validation is vacuous: %d accepted, %d rejected of %d", st.GoAccept, st.GoReject, n)
+	}
+	for j, c := range st.RefutedAlt {
+		if c == 0 {
+			return fmt.Sprintf("RFC 8032 model validation cannot tell decoding rules %+v from %+v", edAltRules[j], EdGoDecodeRules)
 		}
 	}
 	return ""
